@@ -246,6 +246,30 @@ def run(ctx):
         if got != want:
             viol.append({"law": "a regional locale applies its own date order whatever locales of the language were loaded before it", "s": job[-1][0], "selection": job[-1][1],
                          "earlier_calls_in_this_process": [{"s": a, **b} for a, b in job[:-1]], "expected": want, "observed": got})
+    # two long-lived parsers whose settings differ only in the *order* of DEFAULT_LANGUAGES (given order requested), both built before either
+    # is used: each falls back in its own order
+    import subprocess as _sp, sys as _sys, os as _os
+    from common import REPO as _REPO, VERIF as _VERIF
+
+    def _fresh(calls):
+        p_ = _sp.run([_sys.executable, _os.path.join(_VERIF, "harness", "c03_worker.py"), _REPO], input=json.dumps(calls, ensure_ascii=False).encode(), stdout=_sp.PIPE, stderr=_sp.PIPE,
+                     env=dict(_os.environ, PYTHONHASHSEED="0", TZ="UTC", PYTHONDONTWRITEBYTECODE="1"), timeout=600)
+        try:
+            return json.loads(p_.stdout.decode().strip().splitlines()[-1])
+        except Exception:  # noqa
+            return [{"exc": "WORKER-CRASH"}] * len(calls)
+    dl_pairs = 0
+    for sel, d1, d2, s_ in ((["th"], ["en", "fr"], ["fr", "en"], "в 03-04-05"), (["th"], ["hu", "en"], ["en", "hu"], "約 03-04-05"), (["ja"], ["fr", "en", "hu"], ["hu", "en", "fr"], "в 03-04-05")):
+        kwa = {"languages": sel, "use_given_order": True, "settings": {"DEFAULT_LANGUAGES": d1}}
+        kwb = {"languages": sel, "use_given_order": True, "settings": {"DEFAULT_LANGUAGES": d2}}
+        mkc = lambda kw, st: {"fn": "gdd_inst", "s": st, "kw": kw, "kw_key": kw}  # noqa
+        alone_a, alone_b = _fresh([mkc(kwa, s_)])[0], _fresh([mkc(kwb, s_)])[0]
+        both = _fresh([mkc(kwa, "1 January 2001"), mkc(kwb, "1 January 2001"), mkc(kwa, s_), mkc(kwb, s_)])
+        dl_pairs += 1
+        for nm, alone, got, kw in (("first-built", alone_a, both[2], kwa), ("second-built", alone_b, both[3], kwb)):
+            if got != alone:
+                viol.append({"law": "DEFAULT_LANGUAGES are tried in the order given (use_given_order) whatever other parsers exist in the process", "s": s_, "parser": kw,
+                             "other_parser_in_the_process": kwb if kw is kwa else kwa, "alone_in_a_fresh_process": alone, "observed": got, "which": nm})
     auto2 = []
     for s, i in auto:
         r = val(i)
@@ -272,7 +296,7 @@ def run(ctx):
     cov = {"evaluations": len(cases) + len(det), "distinct_nontrivial": len(distinct),
            "rule": "corpus strings × random language subsets/orderings (containing or not the detected language), use_given_order on/off, DEFAULT_LANGUAGES, region vs locale, full autodetection sample; non-trivial = distinct strings with a multi-language result",
            "samples": [{"s": p[0], "languages": p[2], "use_given_order": p[4], "default_languages": p[7]} for p in plan[:5]],
-           "laws_checked": 12, "regional_base_regional_chains": len(chain_jobs), "regional_after_base_sequences": len(reg_jobs), "same_list_both_orders_in_one_process": len(seq_jobs), "law_violations": len(viol), "region_locale_pairs": len(reg), "multi_language_region_selections": len(multi), "of_which_parsed": len(byname), "autodetect_all_languages": len(auto),
+           "laws_checked": 13, "default_language_order_pairs": dl_pairs, "regional_base_regional_chains": len(chain_jobs), "regional_after_base_sequences": len(reg_jobs), "same_list_both_orders_in_one_process": len(seq_jobs), "law_violations": len(viol), "region_locale_pairs": len(reg), "multi_language_region_selections": len(multi), "of_which_parsed": len(byname), "autodetect_all_languages": len(auto),
            "model_compared": len(sub) if "model-build" not in ctx["broken"] else 0, "model_rejected": dict(rej), "model_drift": len(drift),
            "model_drift_samples": [{"s": d["case"]["s"], "langs": d["case"].get("langs"), "model": d["model"], "lib": d["lib"]} for d in drift[:5]]}
     return {"violations": out, "known": [], "coverage": cov, "level": "proof",
